@@ -60,6 +60,14 @@ var badSchemaDocs = []string{
 	"apiVersion: v1\nkind: Service\nmetadata:\n  name: %s\n  namespace: alpha\nspec:\n  selector:\n    app: a\n  ports:\n  - port: 80\nstatus:\n  loadBalancer: 7\n",
 	"apiVersion: v1\nkind: Namespace\nmetadata:\n  name: %s\nstatus: gone\n",
 	"apiVersion: apps/v1\nkind: DaemonSet\nmetadata:\n  name: %s\n  namespace: beta\nspec:\n  selector:\n    matchLabels:\n      tier: b\n  template:\n    metadata:\n      labels:\n        tier: b\n    spec:\n      containers:\n      - name: c\n        image: img\nstatus:\n  conditions: none\n",
+	// manifests written years ago: kinds the analysis uses, under the API group they had then (well formed, such a
+	// document is analysed like its modern spelling; these do not convert)
+	"apiVersion: extensions/v1beta1\nkind: Deployment\nmetadata:\n  name: %s\n  namespace: alpha\nspec:\n  replicas: many\n  template:\n    metadata:\n      labels:\n        app: a\n    spec:\n      containers:\n      - name: c\n        image: img\n",
+	"apiVersion: extensions/v1beta1\nkind: NetworkPolicy\nmetadata:\n  name: %s\n  namespace: alpha\nspec:\n  podSelector:\n  - app\n",
+	"apiVersion: extensions/v1beta1\nkind: DaemonSet\nmetadata:\n  name: %s\n  namespace: beta\nspec:\n  template:\n    metadata:\n      labels:\n        tier: b\n    spec:\n      containers:\n        name: c\n",
+	"apiVersion: apps/v1beta2\nkind: Deployment\nmetadata:\n  name: %s\n  namespace: alpha\nspec: \"x\"\n",
+	"apiVersion: extensions/v1beta1\nkind: Ingress\nmetadata:\n  name: %s\n  namespace: alpha\nspec:\n  rules: 7\n",
+	"apiVersion: extensions/v1beta1\nkind: ReplicaSet\nmetadata:\n  name: %s\n  namespace: beta\nspec:\n  replicas: [1]\n",
 }
 
 var brokenYAML = []string{
